@@ -126,7 +126,10 @@ class Cluster:
 
 # ----------------------------------------------------------------------------- stages
 
-def _mkfiles(d, rng, nfiles, maxlines, long_lines=True):
+MAXLINE = 1024 * 1024    # config default Server.MaxLineLength: a longer line is cut there (and the server warns once per file)
+
+
+def _mkfiles(d, rng, nfiles, maxlines, long_lines=True, huge=False):
     """files f1.log..: lines of printable text with '|', ';', blanks, tabs, UTF-8 (no 0xAC byte, that is C01's open finding),
     some far longer than one transport read; returns {name: [line bytes without newline]}"""
     os.makedirs(d, exist_ok=True)
@@ -143,9 +146,17 @@ def _mkfiles(d, rng, nfiles, maxlines, long_lines=True):
             if n > 300:
                 body = (body * (n // max(1, len(body)) + 1))[:n]
             lines.append(("%s/%d:" % (name, k + 1) + body).encode())
+        raw = list(lines)
+        if huge and i == 0:
+            # one line beyond MaxLineLength in the middle of the file: delivered as two numbered lines, announced by a server
+            # message of its own (which must stay a line of its own)
+            big = ("%s/HUGE:" % name).encode() + b"h" * (MAXLINE + 4321)
+            at = len(lines) // 2
+            raw = lines[:at] + [big] + lines[at:]
+            lines = lines[:at] + [big[:MAXLINE], big[MAXLINE:]] + lines[at:]
         src[name] = lines
         with open(os.path.join(d, name), "wb") as fh:
-            fh.write(b"\n".join(lines) + b"\n")
+            fh.write(b"\n".join(raw) + b"\n")
         os.chmod(os.path.join(d, name), 0o644)
     os.chmod(d, 0o755)
     return src
@@ -156,7 +167,12 @@ def check_remote_records(out, hosts, src, expect_all=True):
     bad = []
     seen = {}
     for rec in out.split(b"\n"):
-        if not rec or rec.startswith(b"CLIENT|") or rec.startswith(b"SERVER|"):
+        if not rec:
+            continue
+        if rec.startswith(b"CLIENT|") or rec.startswith(b"SERVER|"):
+            # a message of the client or of a server is a line of its own as well
+            if rec.count(b"SERVER|host") + rec.count(b"REMOTE|host") > 1 or (rec.startswith(b"CLIENT|") and b"REMOTE|host" in rec):
+                bad.append("two messages on one output line: %r ... %r" % (rec[:80], rec[-60:]))
             continue
         f = rec.split(b"|", 5)
         if len(f) != 6 or f[0] != b"REMOTE":
@@ -174,6 +190,9 @@ def check_remote_records(out, hosts, src, expect_all=True):
             bad.append("record %s|%s #%d is not line %d of that file (%d bytes): %r" % (host, fid, n, n, len(content), content[:60]))
         elif n <= seen.get((host, fid), 0):
             bad.append("source %s|%s: line %d after line %d" % (host, fid, n, seen[(host, fid)]))
+        elif expect_all and n != seen.get((host, fid), 0) + 1:
+            bad.append("source %s|%s: line %d follows line %d (every line is due, one after the other)" % (host, fid, n, seen.get((host, fid), 0)))
+            seen[(host, fid)] = n
         else:
             seen[(host, fid)] = n
         if len(bad) > 6:
@@ -194,7 +213,7 @@ def stage_multi(wd, V, rng, tier, pid):
     try:
         for k in range(3 if tier == "quick" else 12):
             d = os.path.join(cl.wd, "data%d" % k)
-            src = _mkfiles(d, rng, rng.randint(1, 3), 60 if tier == "quick" else 400)
+            src = _mkfiles(d, rng, rng.randint(1, 3), 60 if tier == "quick" else 400, huge=(k == 0))
             hosts = [s["host"] for s in cl.servers]
             rc, out, err = cl.run("dcat", os.path.join(d, "*.log"), timeout=120)
             runs += 1
